@@ -11,8 +11,8 @@ RULE = ("kinds: steps (non-adaptive method, no intervention: every recorded step
         "implicit methods may shorten only with a logged Newton failure), shift ((t0,tf) vs (t0+c,tf+c) on an autonomous system), "
         "reflect (y'=f(y) on (t0,tf) vs w'=-f(w) on (-t0,-tf)); non-trivial = >=3 full-length steps; distinct by (kind,method,span,dt,shift)")
 ASSUMPTIONS = ["the set of fixed-step methods is computed at run time from is_adaptive", "dt >= 64 ulp of the largest time"]
-FLOORS = {"quick": {"runs_checked": 120, "full_length_steps": 1200, "shift_pairs": 30, "reflect_pairs": 30, "backward_runs": 40, "multi_leg_runs": 12, "richardson_pairs": 6},
-          "thorough": {"runs_checked": 1200, "full_length_steps": 12000, "shift_pairs": 120, "reflect_pairs": 120, "backward_runs": 400, "multi_leg_runs": 120, "richardson_pairs": 24}}
+FLOORS = {"quick": {"runs_checked": 120, "full_length_steps": 1200, "shift_pairs": 30, "reflect_pairs": 30, "backward_runs": 40, "multi_leg_runs": 12, "richardson_pairs": 6, "facade_runs": 10, "facade_runs_backward": 3},
+          "thorough": {"runs_checked": 1200, "full_length_steps": 12000, "shift_pairs": 120, "reflect_pairs": 120, "backward_runs": 400, "multi_leg_runs": 120, "richardson_pairs": 24, "facade_runs": 100, "facade_runs_backward": 30}}
 SPANS = [(0.0, 2.0), (-5.0, 1.0), (-10.0, -5.0), (10.0, 5.0), (1.0, -5.0), (3.0, -3.0), (0.0, -2.0), (-2.0, 0.0), (-0.5, 0.25), (7.0, 7.5), (100.0, 103.0)]
 SHIFTS = [1.0, -1.0, 7.3, -7.3, 1e3, -1e3]
 K = 64
@@ -69,6 +69,9 @@ def gen_cases(tier, seed):
                                   span=list(span), dt=float(rng.choice([-1, 1])) * L / nsteps, nsteps=nsteps, pseed=int(rng.integers(1 << 30)),
                                   legs=_legs(rng, nsteps) if info["explicit"] else [],
                                   cost=(1 if info["explicit"] else 8) * nsteps / 10.0))
+                if info["explicit"] and rng.random() < (0.35 if tier == "quick" else 0.5):
+                    # the same request through the functional facade: first_step is the step magnitude (scipy's convention), the span gives the direction
+                    cases.append(dict(cases[-1], route="solve_ivp", legs=[], dt=abs(cases[-1]["dt"]), by_name=bool(rng.random() < 0.5), pseed=int(rng.integers(1 << 30))))
     for name in M:
         info = M[name]
         for rep in range(1 if tier == "quick" else 6):
@@ -135,7 +138,22 @@ def _steps(spec, info, prob, dtype, eps, t0, tf, d, tol, rec, feats):
         rec.skipped = "dt below 64 ulp"
         return rec.out()
     legs = spec.get("legs") or []
-    if not legs:
+    if spec.get("route") == "solve_ivp":
+        import desolver as de
+        feats = dict(feats, route="solve_ivp")
+        slog = None
+        try:
+            res = de.solve_ivp(prob.rhs, (t0, tf), prob.y0.astype(dtype), method=(spec["method"] if spec.get("by_name") else info["cls"]), first_step=dtype.type(dt), **tol)
+        except Exception as e:
+            if type(e).__name__ in ("CaseTimeout", "NoProgress") or type(getattr(e, "__cause__", None)).__name__ in ("CaseTimeout", "NoProgress"):
+                raise
+            rec.violate("explicit_fixed_step_run_raised", type(getattr(e, "__cause__", None) or e).__name__, feats, err=repr(e)[:200])
+            return rec.out()
+        system = res.ode_system
+        seg = {"raised": None}
+        leg_ends = [None]
+        rec.bump("facade_runs")
+    elif not legs:
         system, seg, slog = _run(info, prob, prob.y0, t0, tf, spec["dt"], dtype, tol, log=True)
         leg_ends = [None]
     else:
@@ -163,6 +181,8 @@ def _steps(spec, info, prob, dtype, eps, t0, tf, d, tol, rec, feats):
     rec.bump("runs_checked")
     if d < 0:
         rec.bump("backward_runs")
+        if spec.get("route") == "solve_ivp":
+            rec.bump("facade_runs_backward")
     t = np.asarray(system.t, dtype=np.longdouble)
     steps = np.abs(np.diff(t))
     tmax = max(1.0, float(np.max(np.abs(t))))
